@@ -54,3 +54,8 @@ claim("C18", "edge-sensitive typestate dataflow over the CFG (string-cursor NUL-
       "Decides for every NUL-terminated string: every byte load, scan start and handed-back cursor of hex_get_byte lies inside the string on every path; -1 is returned only with *p == NULL and success stores the cursor just past the pair and returns 16*nibble|nibble (values 0..255); hexchar/nibble are the stated maps on their whole domains and invert each other (so parse(dump(b)) = b per byte); the dumper prints high then low nibble of consecutive bytes, at most 16 pairs per line with a final newline, returns the size, and has no early return with bytes remaining on any path with at most two iterations per loop.",
       "Termination after finitely many calls is not decided beyond 'each call stores an advanced cursor or NULL'. The dumper's 'nothing remains' clause is bounded (two iterations per loop), not inductive. Assumes glibc ctype tables give NUL no class bit. Trusted: clang 14 front end, ir2json, the dataflow's evidence decoders.",
       "DESIGN.md section 2 C18")
+claim("C16", "abstract interpretation of the LLVM IR in a canonical BDD bit-vector domain (exact path conditions, canonical equality with the specification vector) + compile-time _Static_assert witness batch for the macros",
+      "proof",
+      "Proves bitcnt, clz, ctz on all 2^32 arguments and ilog2 on all x > 0, and const_pop / const_lssb applied to run-time 64-bit and 32-bit values on all 2^64 / 2^32 arguments, by equality of canonical Boolean-function vectors; a mismatch yields the witness argument. The macros as integer constant expressions are additionally evaluated by the compiler's constant folder on all one-bit, two-bit and contiguous-mask constants plus seeded pseudo-random ones.",
+      "Compile-time use of the macros on ALL 2^64 constants is covered only through the run-time proof plus the assumption that clang's constant folder and run-time semantics agree on + >> & ?: over uint64_t. Trusted: clang 14 front end, ir2json, bdd.py/bvexec.py.",
+      "DESIGN.md section 2 C16")
